@@ -423,7 +423,16 @@ def check_grid(case, ctx):
     npts = rows * cols
     ctx.check(len(g) == npts, 'grid/len', 'len(grid) = %d for a %dx%d point grid' % (len(g), rows, cols), what='grid-weight')
     if rng.random() < 0.5:
+        w_first = None
+        if rng.random() < 0.6:
+            # reading is not editing: the weight view read BEFORE the grid is the one read after it (order of reads)
+            ctx.tag('grid:weight-read-first')
+            w_first = list(g.weight)
         gr0 = g.grid       # read before setting weights: default unit weights
+        if w_first is not None:
+            w_after = list(g.weight)
+            ctx.check(w_first == w_after, 'grid/weight-view-changed-by-read', 'GridWeighted.weight was %r before the grid was read and '
+                      'is %r... afterwards: nothing was edited in between' % (w_first[:3], w_after[:3]), what='grid-weight')
         ctx.check(all(close(gr0[i][j], base[i][j] + [1.0]) for i in range(rows) for j in range(cols)), 'grid/default-weights',
                   'default weighted grid is not (P, 1)', what='grid-weight')
     W = [rng.uniform(0.2, 5) for _ in range(npts)]
